@@ -1,4 +1,4 @@
-use crate::fw::Check;
+use amv::fw::Check;
 
 pub mod c02_ref;
 pub mod c23_bloom;
